@@ -143,9 +143,20 @@ func (f *FeeInfo) Validate() error {
 		return fmt.Errorf("unknown fee type %T", feeType)
 	}
 
-	_, err := sdk.AccAddressFromBech32(f.Recipient)
+	recipient, err := sdk.AccAddressFromBech32(f.Recipient)
+	if err != nil {
+		return err
+	}
 
-	return err
+	// NOTE: fees are paid with a keeper level send, which does not check the blocked
+	// addresses. A fee paid to the module would stay on the Orbiter account, and one paid
+	// to the dust collector before its module account exists creates a base account at
+	// that address, after which every balance sweep panics.
+	if recipient.Equals(core.ModuleAddress) || recipient.Equals(core.DustCollectorAddress) {
+		return core.ErrValidation.Wrap("fee recipient cannot be an orbiter module account")
+	}
+
+	return nil
 }
 
 func validateAmount(amt *FeeInfo_Amount) error {
